@@ -24,7 +24,7 @@ ASSUMPTIONS = ["finite state: the symbolic variables are event kinds/groups/outc
                "iteration, by a new request for g; after the sequence every in-flight distribution is completed (drain)"]
 BOUNDS = {"quick": "(a) one step from every pre-state over 2 groups; (b) every sequence of 4 events over 2 groups", "thorough": "(b) 6 events"}
 OUTSIDE = "more than 2 groups; the real component managers (C15); cancellation of the actor while requests are in flight"
-BUDGET = {"quick": 300, "thorough": 1500}
+BUDGET = {"quick": 300, "thorough": 900}
 G = [frozenset({1}), frozenset({2})]
 
 
